@@ -351,8 +351,11 @@ pub fn gen(seed: u64, count: usize, tier: &str, params: &Params) -> Vec<Value> {
             }
             "grid" => {
                 let d = rng.range(0, 3) as usize;
-                let axes: Vec<Vec<i64>> = (0..d).map(|_| random_edges(&mut rng, 5)).collect();
-                let pts: Vec<Vec<i64>> = (0..12).map(|_| (0..d).map(|_| rng.range(-8, 14)).collect()).collect();
+                let mut axes: Vec<Vec<i64>> = (0..d).map(|_| random_edges(&mut rng, 5)).collect();
+                // some adjacent axes carry identical bins, others do not; points often repeat a coordinate on neighbouring axes
+                if d >= 2 && rng.chance(1, 3) { let k = rng.below(d as u64 - 1) as usize; axes[k + 1] = axes[k].clone(); }
+                let pts: Vec<Vec<i64>> = (0..12).map(|_| { let mut p: Vec<i64> = (0..d).map(|_| rng.range(-8, 14)).collect();
+                    if d >= 2 && rng.chance(1, 2) { let k = rng.below(d as u64 - 1) as usize; p[k + 1] = p[k]; } p }).collect();
                 cases.push(json!({"ev": "grid", "ty": ty, "axes": axes, "pts": pts}));
             }
             "index" => {
